@@ -241,6 +241,29 @@ func init() {
 	// ---- C03
 	register("c03", func(r *rng.R, tier string) []lcw.Input {
 		ws, in := world(r, true)
+		if r.Chance(1, 5) {
+			// one base with several derived siblings, all mounted, some busy some idle, then umount -all
+			imports := lcw.GenImports(r, in.Cfg, true)
+			ws.Layers = []lcw.LayerSpec{{Name: "base1", HasConfig: true, HasBuild: true, Minimal: true, Mountpoints: true, Imports: imports, HasPackages: true}}
+			sibs := []string{"sib1", "sib2", "sib3"}[:2+r.Intn(2)]
+			for _, n := range sibs {
+				ws.Layers = append(ws.Layers, lcw.LayerSpec{Name: n, Base: "base1", HasConfig: true, HasBuild: true, Minimal: true,
+					Mountpoints: true, HasWork: true, HasUpper: true, Imports: lcw.GenImports(r, in.Cfg, false)})
+			}
+			in = lcw.BuildInput(ws)
+			for _, n := range sibs {
+				in.Steps = append(in.Steps, step("mount", n, "", false))
+			}
+			last := step("umount", "", "", true)
+			last.Users = map[string][]lcw.User{}
+			for _, n := range sibs {
+				if r.Chance(1, 2) {
+					last.Users[n] = []lcw.User{{File: r.Pick([]string{"build", "build/usr", "overlayfs/upperdir"})}}
+				}
+			}
+			in.Steps = append(in.Steps, last, step("probe", "", "", false))
+			return []lcw.Input{in}
+		}
 		in.Steps = append(in.Steps, priorMounts(r, ws, in.Cfg, r.Chance(1, 3))...)
 		in.Steps = append(in.Steps, step("mount", pickLayer(r, ws).Name, "", false))
 		if r.Chance(1, 3) { // manual submount tree below a build root
@@ -273,6 +296,42 @@ func init() {
 	// ---- C04
 	register("c04", func(r *rng.R, tier string) []lcw.Input {
 		ws, in := world(r, r.Chance(2, 3))
+		if r.Chance(1, 4) {
+			// an INCOMPLETE layer (an overlayfs directory missing) that still has a mount below its
+			// build root, or a user inside it: it and its parent must be protected all the same
+			for i := range ws.Layers {
+				if ws.Layers[i].Base != "" {
+					l := &ws.Layers[i]
+					l.HasBuild, l.Minimal = true, true
+					if r.Bool() {
+						l.HasUpper = false
+					} else {
+						l.HasWork = false
+					}
+					in = lcw.BuildInput(ws)
+					if r.Chance(2, 3) {
+						in.Steps = append(in.Steps, kmount("tmpfs", buildPath(in.Cfg, l.Name)+"/"+r.Pick(lcw.MinimalDirs), "tmpfs", 0, ""))
+					}
+					var last lcw.StepIn
+					t := r.Pick([]string{l.Name, l.Name, l.Base})
+					switch r.Intn(4) {
+					case 0:
+						last = step("remove", t, "", r.Chance(1, 2))
+					case 1:
+						last = step("rename", t, "newname", false)
+					case 2:
+						last = step("rebase", t, "", false)
+					default:
+						last = step("rebase", t, r.Pick(append(lcw.LayerNames(ws), "")), false)
+					}
+					if r.Chance(1, 3) {
+						last.Users = map[string][]lcw.User{l.Name: {{File: r.Pick([]string{"packages", "build", "", "overlayfs"})}}}
+					}
+					in.Steps = append(in.Steps, last)
+					return []lcw.Input{in}
+				}
+			}
+		}
 		in.Steps = append(in.Steps, priorMounts(r, ws, in.Cfg, r.Chance(1, 4))...)
 		t := pickLayer(r, ws).Name
 		var last lcw.StepIn
